@@ -10,6 +10,7 @@ d=$(mktemp -d /tmp/gocv-seed-XXXXXX)
 ./tools/scratch.sh "$d/repo" >/dev/null
 pkg=.
 grep -q '^package fasthttpproxy' "$src/demo_test.go" && pkg=./fasthttpproxy
+grep -q '^package prefork' "$src/demo_test.go" && pkg=./prefork
 res="id=$id prop=$prop"
 cp "$src/demo_test.go" "$d/repo/$pkg/zz_seed_demo_test.go"
 clean=$(cd "$d/repo" && go test -count=1 -vet=off -run 'TestSeededDemo' $pkg 2>&1 | tail -1)
@@ -19,7 +20,7 @@ if ! (cd "$d/repo" && go build ./...) >/dev/null 2>&1; then echo "$res build=FAI
 mut=$(cd "$d/repo" && go test -count=1 -vet=off -run 'TestSeededDemo' $pkg 2>&1 | tail -1)
 case "$mut" in ok*) res="$res demo_on_patched=pass(!)";; *) res="$res demo_on_patched=fail";; esac
 rm -f "$d/repo/$pkg/zz_seed_demo_test.go"
-suite=$(cd "$d/repo" && go test -count=1 -vet=off . 2>&1 | tail -1)
+suite=$(cd "$d/repo" && go test -count=1 -vet=off . $([ "$pkg" != . ] && echo $pkg) 2>&1 | grep -v '^ok' | tail -1); [ -z "$suite" ] && suite=ok
 case "$suite" in ok*) res="$res suite=pass";; *) res="$res suite=FAIL";; esac
 out=$(./bin/gocv check "$prop" -repo "$d/repo" -out "$d/out" 2>&1)
 if echo "$out" | grep -q "^VIOLATION property=$prop"; then
